@@ -324,6 +324,26 @@ pub fn gen_history(rng: &mut Rng, justified: bool) -> (Vec<Sx>, Vec<Sx>, String)
             add(rt(6, vec![null_app()], vec![mk(&q)]), &mut terms, &mut ops, &mut nadd);
             "symmetry"
         }
+        5 => { // a redundancy first, then a symmetry of the child that moves the redundant position onto a kept slot:
+               // w(1,3) = h(c, g(1,2,3)) drops slot 2; then g(1,2,3) = g(2,1,3) implies w(1,3) = w(2,3)
+            let g = |p: [u64; 3]| rt(1, p.iter().map(|s| slot_arg(*s)).collect(), vec![]);
+            let w = |a: u64, b: u64| rt(0, vec![slot_arg(a), slot_arg(b)], vec![]);
+            let par = |x: Sx| if true { rt(7, vec![null_app(), null_app()], vec![rt(3, vec![], vec![]), x]) } else { x };
+            let (kept_a, kept_b) = *rng.pick(&[(1u64, 3u64), (2, 3), (1, 2)]);
+            let h0 = add(par(g([1, 2, 3])), &mut terms, &mut ops, &mut nadd);
+            let h1 = add(w(kept_a, kept_b), &mut terms, &mut ops, &mut nadd);
+            if rng.chance(1, 2) { union(h0, h1, &mut ops, &mut jn); } else { union(h1, h0, &mut ops, &mut jn); }
+            let perm: [u64; 3] = *rng.pick(&[[2u64, 1, 3], [1, 3, 2], [3, 2, 1], [2, 3, 1], [3, 1, 2]]);
+            let h2 = add(g([1, 2, 3]), &mut terms, &mut ops, &mut nadd);
+            let h3 = add(g(perm), &mut terms, &mut ops, &mut nadd);
+            union(h2, h3, &mut ops, &mut jn);
+            // probes: the other arrangements of w and of the parent, and one level up
+            for (a, b) in [(1u64, 2u64), (1, 3), (2, 3), (2, 1), (3, 1), (3, 2)] { add(w(a, b), &mut terms, &mut ops, &mut nadd); }
+            add(par(g(perm)), &mut terms, &mut ops, &mut nadd);
+            add(rt(6, vec![null_app()], vec![w(kept_a, kept_b)]), &mut terms, &mut ops, &mut nadd);
+            add(rt(6, vec![null_app()], vec![w(perm[(kept_a - 1) as usize], perm[(kept_b - 1) as usize])]), &mut terms, &mut ops, &mut nadd);
+            "redundancy"
+        }
         _ => "random",
     };
     // random part: some terms with their subterms, some unions
